@@ -269,7 +269,7 @@ func init() {
 		Gen:   c03GenS,
 		Check: c03CheckGeneral,
 		Class: c03Class,
-		Quick: 6000, Thorough: 80000,
+		Quick: 6000, Thorough: 80000, FuzzSecs: 45,
 		Timeout: 20 * time.Second,
 	})
 	vs.Register(vs.Prop[c03Case]{
